@@ -29,7 +29,16 @@ RULE = ('coupling models: random lattice (Chain/Ladder/Square/Honeycomb, <=8 sit
         'small parameter grid.  Every case runs on the real classes, on the Lean model (containers, term lists, MPO '
         'graph edges/states, formal sum of graph paths vs formal sum of terms, bond pieces, dense evaluation) and on an '
         'independent many-body oracle (explicit Jordan-Wigner strings, brute-force lattice enumeration); all dense '
-        'representations are compared with the oracle at 1e-10.  Non-trivial = at least one term of range >= 2 or a '
+        'representations are compared with the oracle at 1e-10.  A tenth of the generated models are infinite chains (unit cell '
+        '1-3) with multi-site terms that differ pairwise only by a shift of the operators right of the switch site by whole '
+        'unit cells (all switchLR variants; term adders and lattice adders), on a window holding every term, with the term '
+        'lists summed over the window as one more representation.  Extension part (harness/c10_ext.py, 120 cases quick / 3000 '
+        'thorough): for generated models and for graphs assembled directly with MPOGraph.add (a third malformed on purpose: '
+        'dead ends, charged operators, unknown operator names, no IdL, bad method arguments) the grids of _build_grids, '
+        'the charges of all virtual legs (_calc_legcharges, also with non-zero Ws_qtotal), build_MPO and chains of '
+        'group_sites / enlarge_mps_unit_cell / extract_segment / sort_legcharges are compared with the Lean model '
+        '(exception classes included) and against a dense oracle (path sum of the graph; window invariance).  '
+        'Non-trivial = at least one term of range >= 2 or a '
         'fermionic/multi-site/exponentially decaying term; distinct by content hash.')
 TRUSTED = ['Lean 4.33 kernel; axioms of every C10_* theorem ⊆ {propext, Classical.choice, Quot.sound}',
            'hand-written model lean/TenpyModel/Ops/*.lean tied to tenpy/models/model.py, networks/terms.py, networks/mpo.py '
@@ -43,6 +52,12 @@ TRUSTED = ['Lean 4.33 kernel; axioms of every C10_* theorem ⊆ {propext, Classi
            'exactly the known finding on the switch-site operator); infinite unit cells (shift != 0) are not covered by a '
            'theorem: there the path sum of the model graph is compared with the model term lists on a window of every case '
            '(paths_ok), the edge lists exactly with the implementation',
+           'extension round: MPOGraph -> MPO (C10/ExtMPO.lean) and the MPO methods group_sites / enlarge_mps_unit_cell / '
+           'extract_segment / sort_legcharges (C10/ExtOps.lean) are modelled on operator-valued matrices; theorems in '
+           'C10/PropsExt.lean; given there: Site.valid_opname and the charge of every operator (C12), trivial shift symmetry of '
+           'the ChargeInfo; the W tensors of the real MPO are compared with the model grids evaluated with the site operators '
+           'at 1e-11 (npc.grid_outer / tensordot / combine_legs are not modelled); the infinite-MPO window theorem for build_MPO '
+           'is checked by execution (denote_graph_ok), proved for finite chains',
            'infinite nearest-neighbour models: bond operators / MPO from bonds / bonds from MPO are compared on a window up to '
            'on-site terms on the two boundary sites, and through the energy per unit cell of a random iMPS (reduced density '
            'matrices of the state by MPS.get_rho_segment)']
